@@ -19,6 +19,7 @@ checks = {
  "C05": ("model_checking", T, "all interleavings (to the bound) of assignments of 5 keys by 2 validators on a launched and a launching consumer, opt-in with key, validator creation with 3 keys, full unbonding, stop/deletion and time jumps; injectivity of key->validator from the store in every state and a map-based model predicting the forbidden assignments", "§5 C05"),
  "C06": ("model_checking", T, "same search as C05; in every state and at the end of every block each key the model says is current or was replaced less than an unbonding period ago must resolve to its owner (time steps 5 s, U-5 s, U pin the deadline to the block)", "§5 C06"),
  "C10": ("model_checking", T, "all sequences (to the bound) of create/update/remove/opt-in messages with zero, past, future and equal spawn times, chain-id changes (same / other revision), allow-inactive consumers, and 5 s / unbonding-period block steps; phase edges, INITIALIZED <=> spawn time <=> scheduled exactly once, launch timing and success predicate, recorded genesis and client are judged on every transition; three directed fixtures with 205 / 150+100 / 199+2+3 consumers due at once exercise the 200-per-block limit", "§5 C10"),
+ "C16": ("model_checking", T, "fees in an allowed and a disallowed denom on a real consumer app, four (fraction, period) settings, closed transfer channel, reward transfer through the real ibc-go transfer keeper and the provider's transfer middleware, late joiner, opt-out, commission changes, allow-list / governance denom registration, payout in BeginBlock; per consumer block the split / send rules, per delivery pool and credit, per provider block the exact-decimal credit accounting, per-validator shares and commissions, eligibility, distribution-account-vs-books, and escrow == minted + in flight in every state", "§5 C16"),
  "C17": ("model_checking", T, "provider OnChanOpenTry over the full grid 7 hop choices x ordering x port x counterparty port x version, OnChanOpenConfirm repeated and for second channels on one client, OnChanOpenInit/Ack on the provider; consumer OnChanOpenInit over 3 hop choices x ordering x counterparty port x version; launches on a pre-existing connection named by two consumers; acceptance is compared with the statement's predicate and the consumer-client-channel relations must be one to one in every reached state; the well-formed handshake runs end to end in the C01 late-open units", "§5 C17"),
  "C19": ("fault_enumeration", T, "part (i): the halt monitor (no BeginBlock/EndBlock error or panic, validator updates acceptable to CometBFT) over the lifecycle, keys, eligibility and provvalset searches; part (ii) (fault injection at external calls) is being added", "§5 C19"),
  "C20": ("model_checking", T, "all sequences (to the bound) of full / partial / cancelling parameter updates on a launched and a registered consumer, stop+deletion, downtime handling and block steps 5 s, U-5 s, U; in-force / pending / schedule records are compared with the timeline rules on every transition and the fraction and jail time actually applied are compared with the parameters in force; a directed fixture with 203 changes due at once exercises the 200-per-block limit", "§5 C20"),
